@@ -393,24 +393,29 @@ impl Expansion<'_> {
             self.fields.iter().try_fold(out, |mut out, field| {
                 let ty = &field.ty;
 
-                if !ty.contains_generics(self.type_params) {
-                    return Ok(out);
-                }
-
                 match FieldAttribute::parse_attrs(&field.attrs, self.attr_name)?
                     .map(Spanning::into_inner)
                 {
+                    // A field's format may refer to other fields, so it's their types that matter,
+                    // not the type of the field the attribute is placed on.
                     Some(FieldAttribute::Right(fmt_attr)) => {
-                        out.extend(fmt_attr.bounded_types(self.fields).map(
+                        out.extend(fmt_attr.bounded_types(self.fields).filter_map(
                             |(ty, trait_name)| {
+                                if !ty.contains_generics(self.type_params) {
+                                    return None;
+                                }
                                 let trait_ident = format_ident!("{trait_name}");
 
-                                parse_quote! { #ty: derive_more::core::fmt::#trait_ident }
+                                Some(parse_quote! { #ty: derive_more::core::fmt::#trait_ident })
                             },
                         ));
                     }
                     Some(FieldAttribute::Left(_skip)) => {}
-                    None => out.extend([parse_quote! { #ty: derive_more::core::fmt::Debug }]),
+                    None => {
+                        if ty.contains_generics(self.type_params) {
+                            out.extend([parse_quote! { #ty: derive_more::core::fmt::Debug }]);
+                        }
+                    }
                 }
                 Ok(out)
             })
